@@ -553,9 +553,35 @@ fn valid() -> impl Strategy<Value = (usize, Vec<u8>, bool)> {
             }
             out
         }),
+        // one channel: an initialisation packet declaring any length (also far above the maximum), followed by a long
+        // train of continuation packets numbered in order (modulo 128, as a wrapping byte, or constant)
+        1 => (prop_oneof![Just(0xFFFFu16), Just(7609), Just(7610), Just(15102), Just(15103), Just(0x8000), any::<u16>()], prop_oneof![Just(0usize), Just(127), Just(128), Just(129), Just(255), Just(256), Just(257), Just(600), 0usize..700], 0u8..3, any::<u32>()).prop_map(|(declared, n, rule, ch)| {
+            let mut out = Vec::with_capacity((n + 1) * 65);
+            out.push(64u8);
+            out.extend_from_slice(&ch.to_be_bytes());
+            out.push(0x83);
+            out.extend_from_slice(&declared.to_be_bytes());
+            out.extend_from_slice(&[0xCD; 57]);
+            for i in 0..n {
+                out.push(64u8);
+                out.extend_from_slice(&ch.to_be_bytes());
+                out.push(match rule {
+                    0 => (i % 128) as u8,
+                    1 => i as u8,
+                    _ => 0,
+                });
+                out.extend_from_slice(&[0xEF; 59]);
+            }
+            out
+        }),
     ]
     .prop_map(|b| (16usize, b, false));
-    let cose = (proptest::collection::vec(any::<u8>(), 0..40), proptest::collection::vec(any::<u8>(), 32..=32), any::<bool>()).prop_map(|(x, y, private)| {
+    // coordinate sizes of both coordinates vary, also in pairs that add up to two proper coordinates
+    let coord_len = prop_oneof![4 => Just(32usize), 1 => prop_oneof![Just(0usize), Just(1), Just(16), Just(31), Just(33), Just(48), Just(63), Just(64), Just(65)], 1 => 0usize..70];
+    let cose = ((coord_len.clone(), coord_len, any::<bool>(), any::<u8>()), proptest::collection::vec(any::<u8>(), 0..40), any::<bool>()).prop_map(|((xl, yl, complementary, fill), x, private)| {
+        let yl = if complementary { 64usize.saturating_sub(xl) } else { yl };
+        let y: Vec<u8> = (0..yl).map(|i| fill.wrapping_add(i as u8)).collect();
+        let x: Vec<u8> = if x.len() % 2 == 0 { (0..xl).map(|i| fill.wrapping_mul(3).wrapping_add(i as u8)).collect() } else { x };
         // a valid P-256 point now and then
         let (x, y) = if x.len() % 3 == 0 {
             let pk = crate::model::util::make_passkey(x.len() as u64, "r", b"i", None, None, None);
@@ -767,7 +793,7 @@ fn minimise(case: &Case, msg: &str) -> Case {
 }
 
 pub fn run(ctx: &mut Ctx) {
-    ctx.rule = "inputs for 24 public decoder entry points (CTAP2 CBOR of six message types, authenticator data, WebAuthn JSON of five types, base64 helpers, three U2F parsers, CTAPHID packet sequences, COSE key converter, fingerprint and asset-link validators, suffix-list API, RP-ID verifier, Bytes/Aaguid CBOR): arbitrary bytes/strings, and structured mutations of valid encodings produced by the C12/C13/C14/C16/C17 generators (truncation, extension, bit flips, CBOR length heads rewritten to 2^16 / 2^32-1 / 2^32 / 2^40 / 2^63 / 2^64-1 / 2^28, inserted huge heads, nesting up to 10^5, length fields rewritten, splices), occasionally fed to another decoder of the same wire format; each case runs in an isolated worker under catch_unwind with allocation and CPU accounting. Plus 16 growth families (thousands of HID packets on distinct / one channel, CBOR and JSON lists of n entries, n unknown members, n labels, ...) measured at n and 4n. Non-trivial = a mutation of a valid encoding, or an input the decoder accepted; distinct by (decoder, input).".into();
+    ctx.rule = "inputs for 24 public decoder entry points (CTAP2 CBOR of six message types, authenticator data, WebAuthn JSON of five types, base64 helpers, three U2F parsers, CTAPHID packet sequences, COSE key converter, fingerprint and asset-link validators, suffix-list API, RP-ID verifier, Bytes/Aaguid CBOR): arbitrary bytes/strings, and structured mutations of valid encodings produced by the C12/C13/C14/C16/C17 generators (truncation, extension, bit flips, a CTAPHID initialisation packet declaring any length followed by up to 700 continuation packets, COSE keys whose coordinates have any sizes; CBOR length heads rewritten to 2^16 / 2^32-1 / 2^32 / 2^40 / 2^63 / 2^64-1 / 2^28, inserted huge heads, nesting up to 10^5, length fields rewritten, splices), occasionally fed to another decoder of the same wire format; each case runs in an isolated worker under catch_unwind with allocation and CPU accounting. Plus 16 growth families (thousands of HID packets on distinct / one channel, CBOR and JSON lists of n entries, n unknown members, n labels, ...) measured at n and 4n. Non-trivial = a mutation of a valid encoding, or an input the decoder accepted; distinct by (decoder, input).".into();
     ctx.assumptions = vec![
         "'out of proportion' is decided numerically: largest single allocation request and peak live bytes <= 8 MiB + 256 x input length (serde itself pre-allocates up to ~1.6 MB for a declared collection length, a bounded constant); thread CPU time <= 250 ms + 20 us x input length (minimum of 3 runs); a 10 s CPU watchdog in the worker".into(),
         "a returned value and a returned error are both fine".into(),
